@@ -21,6 +21,9 @@ EXPLANATION = (
 EXPLANATION += (
     " " + 'R3 also: the decision table of ignore_read over (is_unmapped, is_secondary, is_supplementary, tag_supplementary), obtained by abstractly interpreting its if/elif chain over all 16 valuations, equals unmapped or secondary or (supplementary and not tag_supplementary); R4 also: the three results of prepare_haplotag_information are created before the sample loop and never re-created inside a loop.'
 )
+EXPLANATION += (
+    " " + 'R6: exactly once under --regions -- fetch() returns every alignment overlapping a region, so with one fetch per region an alignment that an earlier region of the list overlaps must be passed over (a test any(overlap(alignment, s, e) for s, e in regions[:i]) on the path to every write, the overlap predicate read from the helper). R7: ReadSetReader._usable_alignments yields exactly the mapped, non-secondary alignments at or above the MAPQ threshold, supplementary / duplicate ones only when asked (decision table over 128 valuations of one loop iteration).'
+)
 NOT_DECIDED = "Score accumulation values, htslib output bytes, overlapping user regions (an alignment inside two requested regions is fetched twice)."
 ASSUMPTIONS = ["pysam: set_tag(tag, None) removes the tag", "bam_reader.fetch(contig=c, start, stop) yields every alignment overlapping the region once"]
 
